@@ -178,6 +178,10 @@ func c06SubText(base string, lo, hi int) string {
 	return "?"
 }
 
+// c06IssetOnly: replay for C17 - the access outcome is C06's business and is not judged, so that isset of a
+// path is evaluated even when the access itself misbehaves
+var c06IssetOnly = false
+
 func c06Replay(i int, raw json.RawMessage) Result {
 	var v c06Vec
 	if err := json.Unmarshal(raw, &v); err != nil {
@@ -209,10 +213,14 @@ func c06Replay(i int, raw json.RawMessage) Result {
 		return Result{Sig: sig, Key: key, Observed: map[string]interface{}{"out": out, "err": fmt.Sprint(err)}, Expected: v.Outcome,
 			Detail: fmt.Sprintf("{{ %s }} on root %s: %s (rendered %q, err %v; spec %s %q)", expr, v.Root, why, out, err, v.Outcome.Kind, v.Outcome.Txt)}
 	}
-	if err != nil && strings.Contains(err.Error(), "PANIC") {
+	if err != nil && strings.Contains(err.Error(), "PANIC") && !c06IssetOnly {
 		return fail("panic", "Execute panicked")
 	}
-	switch v.Outcome.Kind {
+	kind := v.Outcome.Kind
+	if c06IssetOnly {
+		kind = "not judged"
+	}
+	switch kind {
 	case "error":
 		if err == nil {
 			return fail("noerror", "the access must fail loudly")
@@ -369,4 +377,8 @@ func c06SelfCheck(cat map[string]json.RawMessage) string {
 
 func init() {
 	commands["replay-C06"] = func(a []string) int { return replayLoop(a[0], a[1], c06Replay) }
+	commands["replay-C17"] = func(a []string) int {
+		c06IssetOnly = true
+		return replayLoop(a[0], a[1], c06Replay)
+	}
 }
